@@ -33,9 +33,11 @@ def agrees {α : Type} (vs : List α) (f : Byte → α → Option Byte) (arms : 
   (List.range 256).all fun n =>
     (vs.zip arms).all fun p => f (BitVec.ofNat 8 n) p.1 == p.2.map (applyKS (BitVec.ofNat 8 n))
 
-/-- translated bool setter = union / difference of the mask `m` -/
+/-- translated bool setter = union / difference of the mask `m`, as functions on all 256
+    register contents (not as a representation: `self | m` may be written in many ways) -/
 def isFlag (m : Byte) (g : (Nat × Nat) × (Nat × Nat)) : Bool :=
-  g == ((0xFF, m.toNat), ((~~~m).toNat, 0))
+  (List.range 256).all fun n =>
+    applyKS (BitVec.ofNat 8 n) g.1 == (BitVec.ofNat 8 n ||| m) && applyKS (BitVec.ofNat 8 n) g.2 == (BitVec.ofNat 8 n &&& ~~~m)
 
 /-- AccConfig0::with_filt1_bw - High, Low -/
 theorem enc_AccConfig0_with_filt1_bw : agrees (α := Filt1Bw) [.high, .low] (fun b v => some (R.acc0_with_filt1_bw b v)) Enc.AccConfig0_with_filt1_bw = true := by decide +kernel
